@@ -39,24 +39,24 @@ func ComputeLedger(e *types.AppState) *Ledger {
 	}
 	for _, a := range e.Accounts {
 		for _, b := range a.Balance {
-			add(b.Coin, parse(b.Value, fmt.Sprintf("balance %s coin %d", a.Address, b.Coin), &l.Negative))
+			add(b.Coin, parse(b.Value, fmt.Sprintf("balance %s coin %d", a.Address.String(), b.Coin), &l.Negative))
 		}
 	}
 	for _, c := range e.Candidates {
 		for _, s := range c.Stakes {
-			add(s.Coin, parse(s.Value, fmt.Sprintf("stake cand %d owner %s coin %d", c.ID, s.Owner, s.Coin), &l.Negative))
-			parse(s.BipValue, fmt.Sprintf("stake bip value cand %d owner %s coin %d", c.ID, s.Owner, s.Coin), &l.Negative)
+			add(s.Coin, parse(s.Value, fmt.Sprintf("stake cand %d owner %s coin %d", c.ID, s.Owner.String(), s.Coin), &l.Negative))
+			parse(s.BipValue, fmt.Sprintf("stake bip value cand %d owner %s coin %d", c.ID, s.Owner.String(), s.Coin), &l.Negative)
 		}
 		for _, s := range c.Updates {
-			add(s.Coin, parse(s.Value, fmt.Sprintf("update cand %d owner %s coin %d", c.ID, s.Owner, s.Coin), &l.Negative))
+			add(s.Coin, parse(s.Value, fmt.Sprintf("update cand %d owner %s coin %d", c.ID, s.Owner.String(), s.Coin), &l.Negative))
 		}
 		parse(c.TotalBipStake, fmt.Sprintf("total bip stake cand %d", c.ID), &l.Negative)
 	}
 	for _, w := range e.Waitlist {
-		add(w.Coin, parse(w.Value, fmt.Sprintf("waitlist cand %d owner %s coin %d", w.CandidateID, w.Owner, w.Coin), &l.Negative))
+		add(w.Coin, parse(w.Value, fmt.Sprintf("waitlist cand %d owner %s coin %d", w.CandidateID, w.Owner.String(), w.Coin), &l.Negative))
 	}
 	for _, f := range e.FrozenFunds {
-		add(f.Coin, parse(f.Value, fmt.Sprintf("frozen h=%d owner %s coin %d", f.Height, f.Address, f.Coin), &l.Negative))
+		add(f.Coin, parse(f.Value, fmt.Sprintf("frozen h=%d owner %s coin %d", f.Height, f.Address.String(), f.Coin), &l.Negative))
 	}
 	for _, p := range e.Pools {
 		r0 := parse(p.Reserve0, fmt.Sprintf("pool %d reserve0", p.ID), &l.Negative)
@@ -88,8 +88,8 @@ func ComputeLedger(e *types.AppState) *Ledger {
 		}
 	}
 	for _, v := range e.Validators {
-		l.BaseTotal.Add(l.BaseTotal, parse(v.AccumReward, fmt.Sprintf("validator %s accum reward", v.PubKey), &l.Negative))
-		parse(v.TotalBipStake, fmt.Sprintf("validator %s total stake", v.PubKey), &l.Negative)
+		l.BaseTotal.Add(l.BaseTotal, parse(v.AccumReward, fmt.Sprintf("validator %s accum reward", v.PubKey.String()), &l.Negative))
+		parse(v.TotalBipStake, fmt.Sprintf("validator %s total stake", v.PubKey.String()), &l.Negative)
 	}
 	l.BaseTotal.Add(l.BaseTotal, parse(e.TotalSlashed, "total slashed", &l.Negative))
 	return l
